@@ -652,6 +652,9 @@ def account(s, level, mon):
     for t, l in zip(s["params"], loc):
         key = "%s:%s" % (t, l)
         o["param_location"][key] = o["param_location"].get(key, 0) + 1
+        if l == "stack":
+            cls = "subint" if t in SUBINT else ("float" if t == "float" else ("double" if t == "double" else "int_long_ptr"))
+            o["stack_params"][cls] = o["stack_params"].get(cls, 0) + 1
     o["level"][str(level)] = o["level"].get(str(level), 0) + 1
     if s["params"] or s["ret"] != "void":
         mon["nontrivial_hashes"].append(h([s["ret"], s["params"], level]))
@@ -660,7 +663,7 @@ def account(s, level, mon):
 def new_mon():
     return {"evaluations": 0, "nontrivial_hashes": [], "violations": [], "inconclusive": [], "samples": [],
             "discarded": {}, "observed": {"direction": {}, "nparams": {}, "ret": {}, "param_location": {}, "level": {},
-                                          "ppci_errors": {}, "avoid_switch_used": {}, "census": {}}}
+                                          "ppci_errors": {}, "avoid_switch_used": {}, "census": {}, "stack_params": {}}}
 
 
 def run_batch(sigs, level, tmp, tag, mon, depth=0):
@@ -730,12 +733,14 @@ def plan(tier, seed, avoid):
 
 
 def floors(tier):
+    # quick tier on the unchanged tree (seeds 0..2): 5350..5760 evaluations, 610..616 distinct, A = 1920,
+    # B = C >= 1716, stack parameters: int/long/ptr >= 150, sub-int + float + double >= 120 (or rewritten by avoid switches)
     return {"evaluations": 3500, "distinct_nontrivial": 450, "observed.thunk_selftests": 16,
             "observed.direction.A": 1500, "observed.direction.B": 1200, "observed.direction.C": 1200,
             "observed.ret": 12, "observed.nparams": 13, "observed.level": 2,
-            "observed.param_location.int:stack": 20, "observed.param_location.long:stack": 4,
-            "observed.param_location.ptr:stack": 4, "observed.param_location.double:freg": 300,
-            "observed.param_location.float:freg": 300, "observed.param_location.char:ireg": 50}
+            "observed.stack_params.int_long_ptr": 60, "observed.stack_params": 2,
+            "observed.param_location.double:freg": 300, "observed.param_location.float:freg": 300,
+            "observed.param_location.char:ireg": 50, "observed.param_location.ptr:ireg": 50}
 
 
 def make_sig(seed, j, avoid):
